@@ -496,6 +496,39 @@ def self_keyed_scripts():
     return out
 
 
+def byte_key_scripts():
+    """keys are strings: a byte-wise piece of a multi-byte character is not text and is rejected as a key on every path (it
+    never names, or collides with, any property), while a piece that is text names the property spelt that way"""
+    out = []
+    uses = ["o[p] = 1", "print(o[p])", "o[p] += 1", "print({p: 1})", "{p: x} := o", 'print({"a": 1, p: 2})', "o[p] = 1; o[p2] = 2",
+            "print({p: 1, p2: 2})"]
+    for s, i, j, i2, j2 in [("é", 0, 1, 1, 2), ("aé", 1, 2, 2, 3), ("€", 0, 2, 2, 3), ("€", 0, 1, 1, 2), ("😀x", 0, 3, 3, 4), ("😀x", 1, 4, 0, 1)]:
+        for u in uses:
+            sc = L.Script()
+            sc.stmt(f'o := {{"a": 1, "\ufffd": 2}}')
+            sc.stmt(f'p := "{s}"[{i}:{j}]')
+            sc.stmt(f'p2 := "{s}"[{i2}:{j2}]')
+            sc.stmt("print(p == p2)")
+            sc.expect(False)
+            sc.fail(u, "a key that is not valid text")
+            sc.tags = ["byte-key", s, u]
+            out.append(sc.source({"tags": sc.tags}))
+    for s, i, j, key in [("aé", 0, 1, "a"), ("éa", 2, 3, "a"), ("éa", 0, 2, "é"), ("x€", 1, 4, "€")]:
+        sc = L.Script()
+        sc.stmt('o := {"a": 1, "é": 2, "€": 3}')
+        sc.stmt(f'p := "{s}"[{i}:{j}]')
+        sc.stmt("o[p] += 10")
+        sc.stmt("print(o)")
+        exp = {"a": 1, "é": 2, "€": 3}
+        exp[key] += 10
+        sc.expect(exp)
+        sc.stmt("print({p: 0})")
+        sc.expect({key: 0})
+        sc.tags = ["byte-key-text", s]
+        out.append(sc.source({"tags": sc.tags}))
+    return out
+
+
 def classify(src, r):
     p = L.prediction(src) or {}
     return (tuple(p.get("tags", []))[:8], L.err_class(r))
@@ -514,6 +547,7 @@ def run(ctx, model_ok):
     ctx.cov["exhaustive"] = True
     L.run_stream(ctx, "for-kept", for_kept_scripts(), model_ok, classify=classify)
     L.run_stream(ctx, "self-keyed", self_keyed_scripts(), model_ok, classify=classify)
+    L.run_stream(ctx, "byte-keys", byte_key_scripts(), model_ok, classify=classify)
     impl = L.run_stream(ctx, "perms", perms, model_ok, classify=lambda s, r: ("perm", s.split("\n")[1][:40], r["status"]))
     # metamorphic leg: within a group (same pairs, all insertion orders) the output is one and the same text
     res = dict(zip(list(dict.fromkeys(perms)), impl))
